@@ -184,9 +184,22 @@ def fingerprint(e, envs):
     for env in envs:
         try:
             out.append(walk(e, env))
-        except Unknown:
-            out.append(None)
+        except Unknown as u:
+            # "approx": the expression itself is an over-approximation (vec/vecw/top inside); None: the walker has no
+            # opinion (unbound register, mixed sign annotations, rotation >= width, symbolic memory...)
+            out.append("approx" if str(u) in ("vec", "vecw", "top") else None)
     return (e.size, tuple(out))
+
+
+def fingerprint_changed(before, after):
+    """two fingerprints of the same object differ: other width, or a position on which both have an opinion differs"""
+    if not (isinstance(before, tuple) and isinstance(after, tuple)) or len(before) != 2 or len(after) != 2:
+        return before != after
+    if before[0] != after[0]:
+        return True
+    if not (isinstance(before[1], tuple) and isinstance(after[1], tuple)):
+        return before != after
+    return any(x is not None and y is not None and x != y for x, y in zip(before[1], after[1]))
 
 
 def comps_ok(e, _seen=None):
